@@ -15,7 +15,7 @@
 #include "vcommon.h"
 #include <pthread.h>
 
-#define MAXREQ 20000
+#define MAXREQ 60000
 #define MAXF 40
 
 typedef struct
@@ -136,8 +136,13 @@ dump_tables (void)
     pixman_implementation_t *top = _pixman_internal_only_get_implementation (), *imp;
     const char *dis = getenv ("PIXMAN_DISABLE");
     int first_imp = 1;
-    fprintf (vt_out, "{\"e\":\"Tables\",\"disable\":\"%s\",\"any_op\":%d,\"any_fmt\":[%u,%u],\"imps\":[",
-	     dis ? dis : "", (int)PIXMAN_OP_any, W2 (PIXMAN_any));
+    /* "special": the pseudo format codes of pixman-private.h by name, so that the request generator can realise every
+     * kind of table entry without a hand copy of the codes */
+    fprintf (vt_out, "{\"e\":\"Tables\",\"disable\":\"%s\",\"any_op\":%d,\"any_fmt\":[%u,%u],"
+	     "\"special\":{\"null\":[%u,%u],\"solid\":[%u,%u],\"pixbuf\":[%u,%u],\"rpixbuf\":[%u,%u],\"unknown\":[%u,%u],\"any\":[%u,%u]},"
+	     "\"imps\":[",
+	     dis ? dis : "", (int)PIXMAN_OP_any, W2 (PIXMAN_any),
+	     W2 (PIXMAN_null), W2 (PIXMAN_solid), W2 (PIXMAN_pixbuf), W2 (PIXMAN_rpixbuf), W2 (PIXMAN_unknown), W2 (PIXMAN_any));
     for (imp = top; imp; imp = imp->fallback)
     {
 	const pixman_fast_path_t *fp;
@@ -162,6 +167,27 @@ dump_tables (void)
 	    first = 0;
 	}
 	fputc (']', vt_out);
+    }
+    /* "comb" / "comb_ca": per implementation, the operators for which it has a combiner of its own (8-bit pipeline;
+     * unified and component alpha) - the other table along which implementations differ */
+    {
+	int ca, op;
+	for (ca = 0; ca < 2; ca++)
+	{
+	    fprintf (vt_out, "],\"%s\":[", ca ? "comb_ca" : "comb");
+	    for (imp = top, first_imp = 1; imp; imp = imp->fallback, first_imp = 0)
+	    {
+		int first = 1;
+		fprintf (vt_out, "%s[", first_imp ? "" : ",");
+		for (op = 0; op < PIXMAN_N_OPERATORS; op++)
+		    if (ca ? imp->combine_32_ca[op] != NULL : imp->combine_32[op] != NULL)
+		    {
+			fprintf (vt_out, first ? "%d" : ",%d", op);
+			first = 0;
+		    }
+		fputc (']', vt_out);
+	    }
+	}
     }
     fprintf (vt_out, "],\"blt\":[");
     for (imp = top, first_imp = 1; imp; imp = imp->fallback, first_imp = 0)
@@ -196,8 +222,87 @@ typedef struct
     pixman_format_code_t fmt;
 } img_t;
 
+/* Run-structured alpha levels laid over the (random) contents of an image: request field `pat` = block length L.
+ * The row is cut into blocks of L pixels starting at a random phase; every block is one of: a constant level,
+ * a per-pixel mix of two neighbouring levels, two halves of neighbouring levels, a ramp running into (or out of)
+ * the extreme, or left random.  Levels come from the neighbourhood of fully transparent (0, 1, 2) and / or of fully
+ * opaque (255, 254, 253): the values at which special-cased routines switch between "skip", "copy" and "blend",
+ * per pixel or per vector of 2 / 4 / 8 / 16 pixels.  pfmt says where the alpha field is (for a source that is
+ * also read through a mask image over the same bits it is the format of that mask); formats without an alpha
+ * field get all-zero / all-one pixels for the levels 0 / 255. */
+static void
+overlay_runs (img_t *im, pixman_format_code_t pfmt, int pat, vrng_t *rng)
+{
+    int L = pat & 0xff, band_sel = pat >> 8;     /* band_sel 0: by the seed; 1 transparent, 2 opaque, 3 both */
+    static const int low[] = { 0, 0, 1, 1, 1, 2 }, high[] = { 255, 255, 254, 254, 254, 253 };
+    int bpp = PIXMAN_FORMAT_BPP (pfmt), A = PIXMAN_FORMAT_A (pfmt), type = PIXMAN_FORMAT_TYPE (pfmt);
+    int rgb = PIXMAN_FORMAT_R (pfmt) + PIXMAN_FORMAT_G (pfmt) + PIXMAN_FORMAT_B (pfmt);
+    int ashift = (type == PIXMAN_TYPE_BGRA || type == PIXMAN_TYPE_RGBA) ? bpp - (A + rgb) : rgb;
+    int band, phase, x, y;
+    if (L <= 0 || !(bpp == 8 || bpp == 16 || bpp == 32) || A > 8)
+	return;
+    band = (int)vrng_below (rng, 3);       /* 0 around transparent, 1 around opaque, 2 both */
+    if (band_sel >= 1 && band_sel <= 3)
+	band = band_sel - 1;
+    phase = (int)vrng_below (rng, L);
+    for (y = 0; y < im->h; y++)
+    {
+	int kind = 7, v = 0, start = 0;
+	for (x = 0; x < im->w; x++)
+	{
+	    uint8_t *p = (uint8_t *)im->bits + y * im->stride + x * (bpp / 8);
+	    uint32_t px = 0, all = bpp == 32 ? 0xffffffffu : ((1u << bpp) - 1);
+	    int i, lev;
+	    if (x == 0 || (x + phase) % L == 0)
+	    {
+		int hi = band == 1 || (band == 2 && vrng_below (rng, 2));
+		kind = (int)vrng_below (rng, 8);
+		v = hi ? VRNG_PICK (rng, high) : VRNG_PICK (rng, low);
+		if (band == 2 && vrng_below (rng, 6) == 0)
+		    v = 128;
+		start = x;
+	    }
+	    i = x - start;
+	    switch (kind)
+	    {
+	    case 0: case 1: case 2: lev = v; break;
+	    case 3: case 4: lev = vrng_below (rng, 2) ? v : (v ^ 1); break;
+	    case 5: lev = (i < L / 2) ? v : (v ^ 1); break;
+	    case 6: /* ramp into / out of the extreme */
+		lev = v >= 128 ? 255 - ((v & 1) ? (L - 1 - i) : i) : ((v & 1) ? (L - 1 - i) : i);
+		if (lev < 0) lev = 0;
+		if (lev > 255) lev = 255;
+		break;
+	    default: continue;
+	    }
+	    memcpy (&px, p, bpp / 8);
+	    if (A > 0)
+	    {
+		uint32_t am = ((1u << A) - 1) << ashift;
+		px = (px & ~am) | (((uint32_t)lev >> (8 - A)) << ashift);
+	    }
+	    else if (lev == 0)
+		px = 0;
+	    else if (lev == 255)
+		px = all;
+	    memcpy (p, &px, bpp / 8);
+	}
+    }
+}
+
+static void
+make_bits_pat (img_t *im, pixman_format_code_t fmt, int w, int h, int pad_words, vrng_t *rng, int opaque,
+	       int pat, pixman_format_code_t pfmt);
+
 static void
 make_bits (img_t *im, pixman_format_code_t fmt, int w, int h, int pad_words, vrng_t *rng, int opaque)
+{
+    make_bits_pat (im, fmt, w, h, pad_words, rng, opaque, 0, fmt);
+}
+
+static void
+make_bits_pat (img_t *im, pixman_format_code_t fmt, int w, int h, int pad_words, vrng_t *rng, int opaque,
+	       int pat, pixman_format_code_t pfmt)
 {
     int bpp = PIXMAN_FORMAT_BPP (fmt);
     int stride = ((w * bpp + 31) / 32 + pad_words) * 4;
@@ -224,7 +329,34 @@ make_bits (img_t *im, pixman_format_code_t fmt, int w, int h, int pad_words, vrn
 	im->bits[i] = v;
     }
     im->w = w; im->h = h; im->stride = stride; im->fmt = fmt;
+    if (pat > 0 && !opaque)
+	overlay_runs (im, pfmt, pat, rng);
     im->img = pixman_image_create_bits (fmt, w, h, im->bits, stride);
+}
+
+/* a gradient (extended format code PIXMAN_unknown) over roughly w x h pixels: linear, radial or conical by the seed */
+static pixman_image_t *
+make_gradient (int w, int h, vrng_t *rng, int opaque)
+{
+    pixman_gradient_stop_t stops[4];
+    int n = 2 + (int)vrng_below (rng, 3), i;
+    pixman_point_fixed_t p1, p2;
+    for (i = 0; i < n; i++)
+    {
+	stops[i].x = i == n - 1 ? 0x10000 : (pixman_fixed_t)(i * 0x10000 / (n - 1));
+	stops[i].color.alpha = opaque ? 0xffff : (uint16_t)vrng_next (rng);
+	stops[i].color.red = (uint16_t)vrng_next (rng) % (stops[i].color.alpha + 1);
+	stops[i].color.green = (uint16_t)vrng_next (rng) % (stops[i].color.alpha + 1);
+	stops[i].color.blue = (uint16_t)vrng_next (rng) % (stops[i].color.alpha + 1);
+    }
+    p1.x = pixman_int_to_fixed ((int)vrng_below (rng, w + 1)); p1.y = pixman_int_to_fixed ((int)vrng_below (rng, h + 1));
+    p2.x = pixman_int_to_fixed ((int)vrng_below (rng, w + 1)) + 0x8000; p2.y = pixman_int_to_fixed ((int)vrng_below (rng, h + 1)) + 0x4000;
+    switch (vrng_below (rng, 3))
+    {
+    case 0: return pixman_image_create_linear_gradient (&p1, &p2, stops, n);
+    case 1: return pixman_image_create_radial_gradient (&p1, &p2, pixman_int_to_fixed (1), pixman_int_to_fixed (w / 2 + 2), stops, n);
+    default: return pixman_image_create_conical_gradient (&p1, pixman_int_to_fixed ((int)vrng_below (rng, 360)), stops, n);
+    }
 }
 
 static void
@@ -355,7 +487,7 @@ run_request (int idx)
 	int sw = (int)f[k++], sh = (int)f[k++], srep = (int)f[k++], sfilt = (int)f[k++];
 	pixman_fixed_t t[6];
 	pixman_format_code_t mfmt, dfmt;
-	int mw, mh, mrep, mca, dw, dh, sx, sy, mx, my, dx, dy, w, h, sopaque, i, shared, acc, dclip;
+	int mw, mh, mrep, mca, dw, dh, sx, sy, mx, my, dx, dy, w, h, sopaque, i, shared, acc, dclip, samebits, pat;
 	uint64_t seed;
 	for (i = 0; i < 6; i++)
 	    t[i] = (pixman_fixed_t)f[k++];
@@ -366,6 +498,11 @@ run_request (int idx)
 	shared = (r->nf > k) ? (int)f[k++] : 0;
 	acc = (r->nf > k) ? (int)f[k++] : 0;
 	dclip = (r->nf > k) ? (int)f[k++] : 0;
+	/* samebits: the mask is a second image (format mfmt, repeat mrep) over the SOURCE's bits - with equal origins,
+	 * equal repeats and an a8r8g8b8 / a8b8g8r8 mask over an x8r8g8b8 / x8b8g8r8 source this is the request the library
+	 * calls "pixbuf" / "rpixbuf" (non-premultiplied data); pat: block length of the run-structured alpha levels */
+	samebits = (r->nf > k) ? (int)f[k++] : 0;
+	pat = (r->nf > k) ? (int)f[k++] : 0;
 	vrng_seed (&rng, seed);
 	memset (&s, 0, sizeof s); memset (&m, 0, sizeof m);
 	if (shared >= 1 && shared <= NSHARED && shared_img[shared])
@@ -380,9 +517,16 @@ run_request (int idx)
 	    c.blue = (uint16_t)vrng_next (&rng) % (c.alpha + 1);
 	    src = pixman_image_create_solid_fill (&c);
 	}
+	else if (sfmt == PIXMAN_unknown)
+	{
+	    src = make_gradient (sw, sh, &rng, sopaque);
+	    pixman_image_set_repeat (src, (pixman_repeat_t)srep);
+	}
 	else
 	{
-	    make_bits (&s, sfmt, sw, sh, (int)vrng_below (&rng, 2), &rng, sopaque);
+	    if (samebits && (!mfmt || mfmt == 1 || PIXMAN_FORMAT_BPP (mfmt) != PIXMAN_FORMAT_BPP (sfmt)))
+		samebits = 0;
+	    make_bits_pat (&s, sfmt, sw, sh, (int)vrng_below (&rng, 2), &rng, sopaque, pat, samebits ? mfmt : sfmt);
 	    src = s.img;
 	    pixman_image_set_repeat (src, (pixman_repeat_t)srep);
 	    pixman_image_set_filter (src, (pixman_filter_t)sfilt, NULL, 0);
@@ -402,15 +546,25 @@ run_request (int idx)
 	    c.green = (uint16_t)vrng_next (&rng); c.blue = (uint16_t)vrng_next (&rng);
 	    mask = pixman_image_create_solid_fill (&c);
 	}
+	else if (mfmt == PIXMAN_unknown)
+	{
+	    mask = make_gradient (mw, mh, &rng, 0);
+	    pixman_image_set_repeat (mask, (pixman_repeat_t)mrep);
+	}
+	else if (mfmt && samebits && s.bits)
+	{
+	    mask = pixman_image_create_bits (mfmt, s.w, s.h, s.bits, s.stride);
+	    pixman_image_set_repeat (mask, (pixman_repeat_t)mrep);
+	}
 	else if (mfmt)
 	{
-	    make_bits (&m, mfmt, mw, mh, 0, &rng, 0);
+	    make_bits_pat (&m, mfmt, mw, mh, 0, &rng, 0, pat, mfmt);
 	    mask = m.img;
 	    pixman_image_set_repeat (mask, (pixman_repeat_t)mrep);
 	}
 	if (mask && mca)
 	    pixman_image_set_component_alpha (mask, 1);
-	make_bits (&d, dfmt, dw, dh, (int)vrng_below (&rng, 2), &rng, 0);
+	make_bits_pat (&d, dfmt, dw, dh, (int)vrng_below (&rng, 2), &rng, 0, pat, dfmt);
 	/* acc: plain read/write accessors on thread-private images (1 destination, 2 mask, 4 private source) */
 	if (dclip)
 	{
